@@ -120,3 +120,10 @@ Theorem C10_undecided_unms :
   forall (upd : bool) (t : Nest.ntree), NestProofs.unms_r (Undecided.undecided upd t) = NestProofs.unms t.
 Proof. exact UndecidedProofs.undecided_unms. Qed.
 Print Assumptions C10_undecided_unms.
+
+(* a keyword argument that HOLDS a user-controlled part anywhere inside is never deleted because its field now holds the default (F-74) *)
+Theorem C10_call_kw_holding_unmanaged_kept :
+  forall (F : flags) (c : call) (fs : list field) (k : Z) (t : tree) (f : field),
+  In (k, t) (c_kws c) -> has_unm t = true -> find_field k fs = Some f -> fd_default f = true -> In (CKw k (RKeep t)) (call_result F c fs).
+Proof. exact call_kw_holding_unmanaged_kept. Qed.
+Print Assumptions C10_call_kw_holding_unmanaged_kept.
